@@ -18,3 +18,11 @@ package keystore
 //@   trusted
 //@   requires a != nil
 //@   ensures (result1 == nil) == (result0 != nil)
+
+//@ func (*KeystoreManager).GetAddrManager
+//@   trusted
+//@   requires km != nil
+//@   ensures (result1 == nil) == (result0 != nil)
+//@ func (*ManagedAddress).RedeemScript
+//@   trusted
+//@   requires mAddr != nil && chainParams != nil
